@@ -158,6 +158,9 @@ class XListSpec(SeqSpec):
             lens["0" if n == 0 else "1" if n == 1 else "2-5" if n <= 5 else ">5"] += 1
 
 
+SPECS = {"xlist": (XListSpec(), "harness", "runner")}
+
+
 def run(ctx):
     proofs_ok = ctx.check_proofs(PROP_FILES, extra_targets=["theories/XList/Corr.vo"])
     ok, out, exe = vlib.build_runner()
